@@ -206,6 +206,41 @@ def check_stage_traces(run, tab, ex, jnp, rng, tier):
     run.extra["selftest_corrupted_traces_rejected"] = len(bad)
 
 
+def check_convergence(run_, ex, jnp, tier):
+    """the property's second observation point: error of rollouts against a tight reference (order 4, 2048 steps) under dt-halving.
+    A consequence of (tableau satisfies the order conditions: TLC) + (code = tableau: cover and traces); measured here on smooth problems
+    whose errors stay between the asymptotic regime and the rounding floor.  Required: mean observed order over three halvings >= p - 0.35."""
+    def problems():
+        x = np.asarray(ex.make_grid(1, 2 * np.pi, 32))
+        u1 = np.sin(x) + 0.5 * np.cos(2 * x)
+        yield "Burgers", (lambda dt, p: ex.stepper.Burgers(1, 2 * np.pi, 32, dt, diffusivity=0.05, order=p)), u1, 0.5
+        yield "KortewegDeVries", (lambda dt, p: ex.stepper.KortewegDeVries(1, 2 * np.pi, 32, dt, order=p)), 0.5 * u1, 0.25
+        yield "FisherKPP", (lambda dt, p: ex.stepper.reaction.FisherKPP(1, 2 * np.pi, 32, dt, order=p)), 0.5 + 0.3 * u1, 0.5
+        if tier != "quick":
+            yield "KuramotoSivashinsky", (lambda dt, p: ex.stepper.KuramotoSivashinsky(1, 4 * np.pi, 32, dt, order=p)), 0.3 * u1, 0.5
+            g = np.asarray(ex.make_grid(2, 2 * np.pi, 16))
+            w = (np.sin(g[0]) * np.cos(2 * g[1]) + 0.5 * np.cos(g[0] + g[1]))[None]
+            yield "NavierStokesVorticity", (lambda dt, p: ex.stepper.NavierStokesVorticity(2, 2 * np.pi, 16, dt, diffusivity=0.05, order=p)), w, 0.5
+    table = {}
+    for name, mk, u0, T in problems():
+        u0 = jnp.asarray(u0)
+        ref = np.asarray(ex.repeat(mk(T / 2048, 4), 2048)(u0))
+        for p in (1, 2, 3, 4):
+            errs = []
+            for n in (8, 16, 32, 64):
+                errs.append(maxabs(np.asarray(ex.repeat(mk(T / n, p), n)(u0)) - ref))
+            run_.case(("convergence", name, p))
+            usable = [e for e in errs if e > 1e-12]          # above the rounding floor of the reference
+            if len(usable) < 3 or not np.all(np.isfinite(errs)):
+                run_.extra.setdefault("convergence_unusable", []).append(f"{name}/{p}")
+                continue
+            slope = float(np.log2(usable[0] / usable[-1]) / (len(usable) - 1))
+            table[f"{name}/{p}"] = round(slope, 2)
+            if not slope >= p - 0.35:
+                run_.violation({"kind": "convergence", "cls": name, "order": p}, {"errors": errs, "observed_order": slope})
+    run_.extra["observed_orders"] = table
+
+
 def run(tier: str, seed: int) -> int:
     run_ = Run(PID, tier, seed)
     setup_jax(True)
@@ -215,6 +250,7 @@ def run(tier: str, seed: int) -> int:
     tab = etdrk.run_model(run_)
     check_cover(run_, tab, ex, jnp, rng, tier)
     check_stage_traces(run_, tab, ex, jnp, rng, tier)
+    check_convergence(run_, ex, jnp, tier)
     run_.rule = ("cover: (order, z) pairs over the dense z cover x dt x {u=0, u random}, every stage input and the result compared element-wise; "
                  "traces: one recorded step per (stepper class, flags, D, N, order, linear coefficient list) validated by TLC")
     run_.assumptions = ["mpmath (60+ digits) evaluates the ring elements", "relative tolerance 1e-10 per element (cover), 2e5 ulps of the stage magnitude (traces)",
